@@ -227,7 +227,7 @@ def replay_store(chk, beh, vals_ids, rng, tag, hits, cfg) -> None:
 
 def submit_store(chk, tier, pool) -> dict:
   thorough = tier == 'thorough'
-  f = {'model': pool.submit(tlc.run, 'Store', f'C05_store_{tier}.cfg', name=TAG + '-store', timeout=1500, workers=1)   # one worker: the level bound is exact only then}
+  f = {'model': pool.submit(tlc.run, 'Store', f'C05_store_{tier}.cfg', name=TAG + '-store', timeout=1500, workers=1)}   # one worker: the level bound is exact only then
   f['mirror'] = {c: pool.submit(tlc.run, 'Store', c, name=TAG + '-' + c[:-4], timeout=600, workers=1)
                  for c in ('C05_store_mirror.cfg', 'C05_store_mirror_trunc.cfg', 'C05_store_mirror_append.cfg')}
   num, depth, batches = (300, 25, 1) if not thorough else (4000, 40, 4)
